@@ -14,11 +14,13 @@
 From Hio Require Import Base.Prelude Model.Idle Proofs.IdleProofs.
 Local Open Scope Z_scope.
 
-(* what [last] is: the accept tyme at first, then the tyme of every pass in which bytes moved *)
+(* what [last] is: the accept tyme at first, then the tyme of every pass in which bytes moved and of
+   every wind (Server.wind restarts the tymers at the new tymist's tyme; idleness is measured on the
+   time base in force, later pass tymes are on that base) *)
 Theorem C12_last_spec : forall T t0 R p c,
   last (accept T t0) = t0 /\
   (closed (pass R p c) = false ->
-   last (pass R p c) = if moved R p c then fst (fst p) else last c).
+   last (pass R p c) = if moved R p c || is_wind (snd (fst p)) then fst (fst p) else last c).
 Proof. intros. split; [reflexivity|apply last_pass_open]. Qed.
 Print Assumptions C12_last_spec.
 
@@ -26,9 +28,11 @@ Print Assumptions C12_last_spec.
    moved since tyme u = last c is closed by any service pass at a tyme >= u + T:
    in particular by the first one.  For every tymeout T > 0, accept tyme,
    response size, earlier history (including a queued, partly sent response)
-   and content of that pass (bytes arriving in that very pass come too late). *)
+   and content of that pass (bytes arriving in that very pass come too late).
+   The history may contain winds to other tymists (earlier or later tymes): u
+   and the pass tyme are then on the time base of the latest wind. *)
 Theorem C12_closes : forall T t0 R sched now a cap,
-  0 < T -> no_req sched = true ->
+  0 < T -> no_req sched = true -> is_wind a = false ->
   let c := run R (accept T t0) sched in
   last c + T <= now -> closed (pass R (now, a, cap) c) = true.
 Proof. exact closes. Qed.
@@ -36,7 +40,7 @@ Print Assumptions C12_closes.
 
 (* ... and it remains closed whatever follows *)
 Theorem C12_closes_for_good : forall T t0 R sched now a cap rest,
-  0 < T -> no_req sched = true ->
+  0 < T -> no_req sched = true -> is_wind a = false ->
   last (run R (accept T t0) sched) + T <= now ->
   closed (run R (accept T t0) (sched ++ (now, a, cap) :: rest)) = true.
 Proof. exact closes_for_good. Qed.
@@ -48,7 +52,7 @@ Print Assumptions C12_closes_for_good.
    connection; the blocked attempts changed neither the deadline reference nor
    the pending output. *)
 Theorem C12_closes_blocked : forall T t0 R sched quiet now a cap,
-  0 < T -> no_req sched = true -> forallb blocked quiet = true ->
+  0 < T -> no_req sched = true -> forallb blocked quiet = true -> is_wind a = false ->
   let c := run R (accept T t0) sched in
   last c + T <= now ->
   closed (pass R (now, a, cap) (run R c quiet)) = true /\
@@ -65,8 +69,9 @@ Theorem C12_safe : forall T t0 R s1 s2,
 Proof. exact safe_always. Qed.
 Print Assumptions C12_safe.
 
-(* The same with the property's wording: pass tymes do not go backwards and for
-   every pass there is a receive (or the accept) less than T before it, i.e.
+(* The same with the property's wording: pass tymes do not go backwards (a wind
+   starts a new time base) and for every pass there is a receive (or the accept,
+   or the latest wind) on the time base in force less than T before it, i.e.
    there is traffic in every tymeout window. *)
 Theorem C12_safe_windows : forall T t0 R sched,
   sorted_from t0 sched -> windowed T [t0] sched -> timedout (run R (accept T t0) sched) = false.
@@ -114,11 +119,24 @@ Example C12_safe_example :
   closed (run 225 (accept 4 0) sched) = true /\ timedout (run 225 (accept 4 0) sched) = false.
 Proof. vm_compute. repeat split; intros; reflexivity || discriminate. Qed.
 
+(* across winds: accepted at 50 on one tymist, wound at once to a tymist at 0 (T = 5): still open at 4,
+   closed at 5; a busy connection wound from 3 to 100 survives the passes at 103, 104 and is closed
+   at 108 = 103 + 5. *)
+Example C12_wind_example :
+  let early := [(50, Quiet, 0%N); (0, Rewind, 0%N); (4, Quiet, 0%N)] in
+  let late := [(0, Rx 1, 0%N); (3, Rx 1, 0%N); (100, Rewind, 0%N); (103, Rx 1, 0%N); (104, Quiet, 0%N)] in
+  no_req early = true /\ last (run 225 (accept 5 50) early) = 0 /\
+  closed (run 225 (accept 5 50) early) = false /\
+  closed (pass 225 (5, Quiet, 0%N) (run 225 (accept 5 50) early)) = true /\
+  busy 225 5 (accept 5 0) late /\ closed (run 225 (accept 5 0) late) = false /\
+  closed (pass 225 (108, Quiet, 0%N) (run 225 (accept 5 0) late)) = true.
+Proof. vm_compute. repeat split; intros; reflexivity || discriminate. Qed.
+
 Example C12_windows_example :
   let sched := [(0, Rx 1, 0%N); (3, Rx 1, 0%N); (6, Rx 2, 0%N); (9, Quiet, 0%N); (9, Rx 1, 0%N); (12, Quiet, 0%N)] in
   sorted_from 0 sched /\ windowed 4 [0] sched /\ closed (run 0 (accept 4 0) sched) = false.
 Proof.
-  cbn [sorted_from windowed has_traffic N.ltb N.compare fst snd]. repeat split; try lia.
+  cbn [sorted_from windowed has_traffic is_wind N.ltb N.compare fst snd]. repeat split; try lia.
   - exists 0. split; [now left|lia].
   - exists 0. split; [now left|lia].
   - exists 3. split; [now left|lia].
